@@ -176,7 +176,7 @@ Proof.
     assert (Hne : bytes_eqb path k = false).
     { destruct path; [|discriminate]. destruct k; [discriminate|reflexivity]. }
     destruct e as [p d|p d|p]; simpl in *; unfold path in Hne; simpl in Hne;
-      try (destruct d as [|[|x u]]); simpl; try rewrite Hne; reflexivity.
+      try (destruct d as [part|[|x u]]); simpl; try rewrite Hne; reflexivity.
   - assert (Hstep : forall f,
                (forall k, alookup k (f init) =
                           if is_nil k then alookup k init
@@ -198,7 +198,7 @@ Proof.
     { intros k Hk. destruct k; [|discriminate]. destruct path; [discriminate|reflexivity]. }
     destruct e as [p d|p d|p]; simpl to_tce in *; simpl ev_data; simpl ev_path in *.
     + (* Added *)
-      destruct d as [|u]; [|destruct u as [|x u]]; simpl is_nil.
+      destruct d as [part|u]; [|destruct u as [|x u]]; simpl is_nil.
       * exists w, s, init. split; [reflexivity|]. split; [apply extends_refl|]. split; [exact Hr|]. split; [exact Hnd|].
         intros k. apply Same. left. reflexivity.
       * exists w, s, init. split; [reflexivity|]. split; [apply extends_refl|]. split; [exact Hr|]. split; [exact Hnd|].
@@ -212,7 +212,7 @@ Proof.
            { apply bytes_eqb_neq. apply bytes_eqb_neq in E. congruence. }
            rewrite E'. reflexivity.
     + (* Updated *)
-      destruct d as [|u]; [|destruct u as [|x u]]; simpl is_nil.
+      destruct d as [part|u]; [|destruct u as [|x u]]; simpl is_nil.
       * exists w, s, init. split; [reflexivity|]. split; [apply extends_refl|]. split; [exact Hr|]. split; [exact Hnd|].
         intros k. apply Same. left. reflexivity.
       * exists w, s, init. split; [reflexivity|]. split; [apply extends_refl|]. split; [exact Hr|]. split; [exact Hnd|].
@@ -281,7 +281,7 @@ Proof.
     split; [exact Hext|]. simpl. apply (read_valid _ _ _ Hread). }
   destruct (is_nil (trim_prefix (c_zk c) (ev_path e))).
   - intros H Hw. injection H as <- <-. split; [apply extends_refl|exact Hw].
-  - destruct (ev_data e) as [[|u]|].
+  - destruct (ev_data e) as [[part|u]|].
     + intros H Hw. injection H as <- <-. split; [apply extends_refl|exact Hw].
     + destruct (is_nil u).
       * intros H Hw. injection H as <- <-. split; [apply extends_refl|exact Hw].
@@ -359,6 +359,41 @@ Proof.
 Qed.
 
 (* run_trace publishes exactly the snapshots of the prefixes *)
+(* however the history is cut into bursts, the loop ends where it ends on the whole history *)
+Lemma last_cons_default {A} (l : list A) : forall (a d : A), last (a :: l) d = last l a.
+Proof.
+  induction l as [|x l IH]; intros a d; [reflexivity|].
+  change (last (a :: x :: l) d) with (last (x :: l) d). rewrite (IH x d), (IH x a). reflexivity.
+Qed.
+
+Lemma run_bursts_concat bursts : forall w s,
+  match run_bursts bursts w s with
+  | Panic => run (map to_tce (concat bursts)) w s = Panic
+  | Done (ws, s') => run (map to_tce (concat bursts)) w s = Done (last ws w, s')
+  end.
+Proof.
+  induction bursts as [|b r IH]; intros w s; simpl; [reflexivity|].
+  rewrite map_app, run_app.
+  destruct (run (map to_tce b) w s) as [[w1 s1]|]; [|reflexivity].
+  specialize (IH w1 s1). destruct (run_bursts r w1 s1) as [[ws s']|]; [|exact IH].
+  rewrite IH. rewrite last_cons_default. reflexivity.
+Qed.
+
+Theorem bursts_publish_fold : forall (bursts : list (list zevent)) zk init w s,
+  read w s = Some (Cell zk init) -> NoDup (map fst init) ->
+  exists ws s' m,
+    run_bursts bursts w s = Done (ws, s') /\
+    read (last ws w) s' = Some (Cell zk m) /\ NoDup (map fst m) /\
+    forall k, alookup k m = fold_spec zk init (concat bursts) k.
+Proof.
+  intros bursts zk init w s Hr Hnd.
+  destruct (uris_is_fold (concat bursts) zk init w s Hr Hnd) as (w' & s' & m & Hrun & Hread & Hn & Hf).
+  pose proof (run_bursts_concat bursts w s) as H.
+  destruct (run_bursts bursts w s) as [[ws s2]|]; [|congruence].
+  rewrite Hrun in H. injection H as -> ->.
+  exists ws, s2, m. repeat split; assumption.
+Qed.
+
 Lemma run_trace_run hist : forall w s,
   match run_trace hist w s with
   | Panic => run hist w s = Panic
